@@ -10,12 +10,12 @@ VARIANTS = [
     V("bridge-c-swap", BI, "out_H = first_coeff ** 2 * H - a * X1 + c * right_diff * X2",
       "out_H = first_coeff ** 2 * H - a * X1 + c * left_diff * X2", rule="R04.1"),
     V("noH-var", BI, "var = left_diff * right_diff * h_reciprocal", "var = left_diff * right_diff", rule="R04.1"),
-    V("top-H-scale", BI, "H = self._randn(initial_H_seed) * math.sqrt((t1 - t0) / 12)",
-      "H = self._randn(initial_H_seed) * math.sqrt((t1 - t0) / 10)", rule="R04.2"),
-    V("top-W-scale", BI, "W = self._randn(initial_W_seed) * math.sqrt(t1 - t0)",
-      "W = self._randn(initial_W_seed) * (t1 - t0)", rule="R04.2"),
-    V("top-same-seed", BI, "H = self._randn(initial_H_seed) * math.sqrt((t1 - t0) / 12)",
-      "H = self._randn(initial_W_seed) * math.sqrt((t1 - t0) / 12)", rule="R04"),
+    V("top-H-scale", BI, "H = self._randn(initial_H_seed) * math.sqrt((self._end - self._start) / 12)",
+      "H = self._randn(initial_H_seed) * math.sqrt((self._end - self._start) / 10)", rule="R04.2"),
+    V("top-W-scale", BI, "W = self._randn(initial_W_seed) * math.sqrt(self._end - self._start)",
+      "W = self._randn(initial_W_seed) * (self._end - self._start)", rule="R04.2"),
+    V("top-same-seed", BI, "H = self._randn(initial_H_seed) * math.sqrt((self._end - self._start) / 12)",
+      "H = self._randn(initial_W_seed) * math.sqrt((self._end - self._start) / 12)", rule="R04"),
     V("supplied-W-rescaled", BI, "            _assert_floating_tensor('W', W)\n",
       "            _assert_floating_tensor('W', W)\n            W = W * 1.0000001\n", rule="R04.2"),
     V("node-seeds-three", BI, "self._W_seed, self._H_seed, self._left_a_seed, self._right_a_seed = generator.generate_state(4, dtype=np.uint64)",
@@ -42,8 +42,8 @@ VARIANTS = [
     V("twin-v-form", BI, "v = 0.5 * math.sqrt(left_diff * right_diff / (left_diff_cubed + right_diff_cubed))",
       "v = math.sqrt(0.25 * left_diff * right_diff / (left_diff_cubed + right_diff_cubed))", expect="silent"),
     V("twin-davie-form", BI, "std = math.sqrt(0.5 * _r12 * h ** 2)", "std = h * math.sqrt(1 / 24)", expect="silent"),
-    V("twin-top-scale", BI, "H = self._randn(initial_H_seed) * math.sqrt((t1 - t0) / 12)",
-      "H = math.sqrt(_r12 * (t1 - t0)) * self._randn(initial_H_seed)", expect="silent"),
+    V("twin-top-scale", BI, "H = self._randn(initial_H_seed) * math.sqrt((self._end - self._start) / 12)",
+      "H = math.sqrt(_r12 * (self._end - self._start)) * self._randn(initial_H_seed)", expect="silent"),
 ]
 
 VARIANTS += [
